@@ -65,6 +65,9 @@ func c13Build(rng *rand.Rand, src, dst netip.Addr, sport, dport uint16, payload 
 	}
 	p := &peer.SCIONPkt{SrcIA: srcIA, DstIA: c05LIA, SrcHost: src, DstHost: dst, SrcPort: sport, DstPort: dport, Path: pth, Payload: payload,
 		FlowID: uint32(seed>>8) & 0xfffff, TrafficClass: uint8(seed>>40) & 0xfc}
+	if seed>>50&3 == 0 { // a hop-by-hop extension header in front of the end-to-end one
+		p.HBH = []*slayers.HopByHopOption{{OptType: slayers.OptionType(30 + seed>>52&7), OptData: randBytes(rand.New(rand.NewPCG(seed, 5)), int(seed>>56&7))}}
+	}
 	out := &c13Pkt{p: p, mk: mk}
 	var err error
 	if auth {
@@ -264,7 +267,10 @@ func c13Server(r *ev.Run) {
 			}
 		}
 		w := map[string]any{"request": ev.Hex(rq.data), "authenticated": auth, "mutation": mutation, "underlay_port": underlay.Port(), "replies": len(mine)}
-		r.Distinct(fmt.Sprint(auth, mutation, underlay.Port(), rq.p.SrcHost.Is6(), rq.p.DstHost.Is6(), rq.mk() == nil))
+		r.Distinct(fmt.Sprint(auth, mutation, underlay.Port(), rq.p.SrcHost.Is6(), rq.p.DstHost.Is6(), rq.mk() == nil, len(rq.p.HBH)))
+		if len(rq.p.HBH) > 0 {
+			r.Class("request-with-hop-by-hop-header")
+		}
 		switch {
 		case auth && mutation != "none":
 			if len(mine) != 0 {
